@@ -117,7 +117,7 @@ def shard(rec, tier, index, n_shards):
         do_case(rec, case, one_request=(n % 2 == 0))
         n += 1
     # every output format of a few simple shapes (engine.output_exhaustive_cases)
-    for case in engine.output_exhaustive_cases(rng, index, n_shards, draws=2 if tier == "quick" else 8):
+    for case in engine.output_exhaustive_cases(rng, index, n_shards, draws=2 if tier == "quick" else 8, light_order4=(tier == "quick")):
         rec.count("every_output_format_cases")
         do_case(rec, case, one_request=(n % 2 == 0))
         n += 1
